@@ -408,11 +408,7 @@ func planH2(rng *hk.Rand, a *aresp, o *h2opts, method string) {
 	if o.Declare {
 		extra = append(extra, field{"content-length", fmt.Sprint(len(a.Body))})
 	}
-	if hasBody && o.DeclareTr && len(a.Trailers) > 0 {
-		var names []string
-		for _, t := range a.Trailers {
-			names = append(names, t.Name)
-		}
+	if names := a.announced(o.DeclareTr); hasBody && len(names) > 0 {
 		extra = append(extra, field{"trailer", strings.Join(names, ", ")})
 	}
 	all := lowerFields(a.Fields)
